@@ -21,7 +21,7 @@
 (* harness maps n to (n \div B)*4096 + frac(n % B) with frac monotone, frac(0)=0,            *)
 (* frac(1)=1, frac(B-1)=4095, so "around multiples of B" means around multiples of 4096.     *)
 (*                                                                                          *)
-(* Known defect carried as a named deviation: Dev_ReadErrIsEOF.  scan.c:nextchar never looks *)
+(* Defect repaired by /repo 0b97f88, kept as a named deviation (FALSE in every configuration): Dev_ReadErrIsEOF.  scan.c:nextchar never looks *)
 (* at ferror(file): a read(2) that fails (EISDIR for a directory, EBADF for a closed stdin,  *)
 (* EIO) is taken for end of input, the truncated input is compiled and the status is 0.      *)
 EXTENDS Naturals, Integers, Sequences, FiniteSets, TLC, Json, SequencesExt
